@@ -107,6 +107,10 @@ func (s *Solver) Reset(tc *TermCtx) {
 	s.defined = make(map[int32]bool, 256)
 	s.declUF = map[string]bool{}
 	s.send("(reset)\n")
+	if strings.HasPrefix(s.argv[0], "cvc5") {
+		// cvc5 prints a warning block in place of the first answer otherwise
+		s.send("(set-logic ALL)\n")
+	}
 }
 
 // emit makes sure t (and everything below) has been declared/defined.
